@@ -11,8 +11,9 @@ Carrier == Carriers[((N + flt.nc + 2 * flt.nd + (TrajFuel \div 1000) + (IF gse T
 \* The altitude profile the flight is realised on: "high" climbs through the stratosphere, "low" is a short hop that
 \* stays below 2.5 km (estimates that look at the top of the flight - MEEM - see a different flight).  The balance
 \* does not depend on it.  One profile per flight, spread deterministically.
-AltProfiles == <<"high", "low">>
-AltProfile == AltProfiles[((N + 2 * flt.nc + flt.nd + (IF mode = "lto" THEN 1 ELSE 0)) % 2) + 1]
+\* ("ref_level": the flight tops out at exactly 3000 m, the reference level of MEEM's linear variation.)
+AltProfiles == <<"high", "low", "ref_level">>
+AltProfile == AltProfiles[((N + 2 * flt.nc + flt.nd + (IF mode = "lto" THEN 1 ELSE 0)) % 3) + 1]
 \* The performance model lists its four LTO modes in some order (idle .. take-off, or take-off .. idle as the ICAO
 \* databank does): per-mode data are keyed by mode, the listing order means nothing.  One order per flight.
 ModeOrders == <<"idle_first", "takeoff_first">>
